@@ -772,6 +772,146 @@ func (c *checker) partD() (constructorsOK int) {
 }
 
 // ---------------------------------------------------------------------------------------------
+// part E: every transaction type x payload version 0..3 through checkTransactionSignature
+
+// pinnedExemptions is the set of (transaction type, payload version) for which the tree's
+// checkTransactionSignature verifies NO program, as observed on the unchanged tree at the time of
+// writing. They are the classes the statement leaves room for: transactions assembled by the
+// arbiters that spend nothing (NextTurnDPOSInfo) or spend only system-owned addresses whose use
+// is restricted by the type's own SpecialContextCheck (CR assets / CRC foundation / stake pool /
+// DPoS reward accumulation): no user address is spent, so no user program is due. Any other
+// (type, version) must verify programs; any change of this set — one more exempted class, or one
+// fewer — is reported as C05|signature-exemption-changed|type=..|pv=...
+var pinnedExemptions = map[string]bool{
+	"CRCProposalWithdraw/0": true, // version 0 spends the CRC foundation address only; version 1 spends ordinary UTXOs
+	"CRAssetsRectify/0":     true, "CRAssetsRectify/1": true, "CRAssetsRectify/2": true, "CRAssetsRectify/3": true,
+	"CRCProposalRealWithdraw/0": true, "CRCProposalRealWithdraw/1": true, "CRCProposalRealWithdraw/2": true, "CRCProposalRealWithdraw/3": true,
+	"NextTurnDPOSInfo/0": true, "NextTurnDPOSInfo/1": true, "NextTurnDPOSInfo/2": true, "NextTurnDPOSInfo/3": true,
+	"DposV2ClaimRewardRealWithdraw/0": true, "DposV2ClaimRewardRealWithdraw/1": true, "DposV2ClaimRewardRealWithdraw/2": true, "DposV2ClaimRewardRealWithdraw/3": true,
+	"VotesRealWithdraw/0": true, "VotesRealWithdraw/1": true, "VotesRealWithdraw/2": true, "VotesRealWithdraw/3": true,
+}
+
+func (c *checker) partE() (types int, cases int64, exempt []string) {
+	victim := addressKinds()[0] // standard(k0): the foreign address being spent
+	foreignCode := keys.StandardCode(keys.Pub(9))
+	seenPinned := map[string]bool{}
+	for t := 0; t < 256; t++ {
+		tt := ctypes.TxType(t)
+		if _, err := transaction.GetTransaction(tt); err != nil {
+			continue
+		}
+		types++
+		for pv := byte(0); pv <= 3; pv++ {
+			key := fmt.Sprintf("%s/%d", tt.Name(), pv)
+			build := func() (interfaces.Transaction, map[*ctypes.Input]ctypes.Output, error) {
+				pl, err := interfaces.GetPayload(tt, pv)
+				if err != nil || pl == nil {
+					return nil, nil, fmt.Errorf("no payload object")
+				}
+				var id common.Uint256
+				id[0], id[1] = byte(t), 0xE5
+				in := &ctypes.Input{Previous: ctypes.OutPoint{TxID: id, Index: 0}, Sequence: 0}
+				to := common.Uint168(keys.ProgramHash(keys.PrefixStandard, foreignCode))
+				tx := transaction.CreateTransaction(ctypes.TxVersion09, tt, pv, pl,
+					[]*ctypes.Attribute{{Usage: ctypes.Nonce, Data: []byte{byte(t), pv}}}, []*ctypes.Input{in},
+					[]*ctypes.Output{{AssetID: core.ELAAssetID, Value: 900, ProgramHash: to, Type: ctypes.OTNone, Payload: &outputpayload.DefaultOutput{}}}, 0, nil)
+				return tx, map[*ctypes.Input]ctypes.Output{in: {AssetID: core.ELAAssetID, Value: 1000, ProgramHash: victim.hash()}}, nil
+			}
+			tx0, _, err := build()
+			if err != nil {
+				c.classes.Add("types:no-payload-object")
+				continue
+			}
+			// the bytes the node signs over (serialisation errors are ignored by the node as well)
+			var data []byte
+			_, panicked, _ := guard(func() error {
+				buf := new(bytes.Buffer)
+				tx0.SerializeUnsigned(buf)
+				data = append([]byte{}, buf.Bytes()...)
+				return nil
+			})
+			if panicked {
+				c.classes.Add("types:unsigned-serialisation-panics(zero payload)")
+				continue
+			}
+			good := victim.sign(data)
+			tampered := append([]byte{}, good...)
+			tampered[40] ^= 0x01
+			variants := []struct {
+				name    string
+				progs   []*pg.Program
+				correct bool
+			}{
+				{"no-program", nil, false},
+				{"foreign-program", []*pg.Program{{Code: foreignCode, Parameter: keys.SigParam(keys.Sign(9, data, 0))}}, false},
+				{"tampered-signature", []*pg.Program{{Code: victim.code, Parameter: tampered}}, false},
+				{"correct-program", []*pg.Program{{Code: victim.code, Parameter: good}}, true},
+			}
+			acceptedWrong, acceptedRight, failed := 0, false, false
+			for _, v := range variants {
+				tx, refs, _ := build()
+				tx.SetPrograms(v.progs)
+				atomic.AddInt64(&c.ct.evals, 1)
+				cases++
+				err, panicked, site := guard(func() error { return transaction.VerifCheckTransactionSignature(tx, refs) })
+				switch {
+				case panicked:
+					atomic.AddInt64(&c.ct.panicked, 1)
+					c.classes.Add("types:panic:" + site)
+					failed = true
+				case err != nil:
+					atomic.AddInt64(&c.ct.rejected, 1)
+				default:
+					atomic.AddInt64(&c.ct.accepted, 1)
+					if v.correct {
+						acceptedRight = true
+					} else {
+						acceptedWrong++
+					}
+				}
+			}
+			if failed {
+				continue
+			}
+			art := map[string]interface{}{"kind": "types", "type": tt.Name(), "type_code": t, "payload_version": pv,
+				"accepted_without_correct_program": acceptedWrong, "accepted_with_correct_program": acceptedRight}
+			isExempt := acceptedWrong == 3
+			switch {
+			case isExempt:
+				exempt = append(exempt, key)
+				if pinnedExemptions[key] {
+					seenPinned[key] = true
+					c.classes.Add("types:exempt(pinned)")
+				} else {
+					c.r.Violate(fmt.Sprintf("C05|signature-exemption-changed|type=%s|pv=%d", tt.Name(), pv),
+						"a transaction type/payload version that must carry valid programs for the addresses it spends is accepted with no program, a foreign program and a tampered signature", art)
+				}
+			case acceptedWrong > 0:
+				c.r.Violate(fmt.Sprintf("C05|accept-wrong-program-set|type=%s|pv=%d", tt.Name(), pv),
+					"a spend of a foreign address was accepted without the address's correctly signed program", art)
+			default:
+				if pinnedExemptions[key] {
+					c.r.Violate(fmt.Sprintf("C05|signature-exemption-changed|type=%s|pv=%d", tt.Name(), pv),
+						"a class in the pinned exemption table now verifies programs (the table is the tree's own rule at the time of writing: update it together with the rule)", art)
+				}
+				if !acceptedRight {
+					c.validRej.Add("types: " + key + ": correctly signed spend rejected")
+				}
+				c.classes.Add("types:verifies-programs")
+			}
+		}
+	}
+	for k := range pinnedExemptions {
+		if !seenPinned[k] {
+			// pinned but not observed at all (type removed / payload object missing): engine-level, not a verdict
+			c.classes.Add("types:pinned-class-not-observed:" + k)
+		}
+	}
+	sort.Strings(exempt)
+	return
+}
+
+// ---------------------------------------------------------------------------------------------
 
 func main() {
 	r := evid.Start("C05", "exploration")
@@ -792,6 +932,7 @@ func main() {
 	muts := c.partB()
 	mofn := c.partC(r.Thorough())
 	ctorsOK := c.partD()
+	nTypes, typeCases, exempt := c.partE()
 	os.RemoveAll(scr)
 
 	if c.validRej.Len() > 0 && r.NumViolations() == 0 {
@@ -813,6 +954,7 @@ func main() {
 	r.Assume = append(r.Assume,
 		"accepted spends under the cross-chain prefix (RunPrograms does not bind the program to the address) and with unclassified code under the standard/deposit prefix (RunPrograms checks no signature) are listed in no_signature_check_classes and not alarmed: no wallet/contract constructor issues such an address (checked: every constructor output for n<=4 is inside the standard/multisig/Schnorr layouts and its unsigned spend is rejected); cross-chain UTXOs are protected at transaction level (C31/C33)",
 		"the length byte in front of each 64-byte signature is not interpreted by the node; the reference verifier ignores it as well",
+		"part E observes only the exemptions inside checkTransactionSignature; types whose SpecialContextCheck ends the context check before it (coinbase, evidence and arbiter-built types) are not observable through this seam. The pinned exemption table is the tree's own rule at the time of writing; whether the exempted types really spend only system-owned addresses is enforced by their SpecialContextCheck (state-dependent) and is not re-verified here",
 		"ContextCheck's other gates (UTXO lookup, fee, deposit rules) are outside this check: checkTransactionSignature is driven directly through the verif hook with harness references",
 		"panics met on the way (Schnorr parameter shorter than 64 bytes, truncated multisig code) are C03's findings; here they count as not accepted")
 	r.Finish(evid.Coverage{
@@ -821,6 +963,7 @@ func main() {
 		"rule": "A: address sets of size 1..3 over {standard k0, standard k1, deposit k0, multisig 1of2, multisig 2of3, Schnorr} x {plain, +second UTXO of one address, last address named by a Script attribute} x every sequence of length 0..|set|+1 over {valid program, badly signed twin of each needed address, one valid foreign program} through checkTransactionSignature; " +
 			"B: every single-byte substitution (16-value alphabet) of code, parameter and signed bytes of each kind's valid spend, plus signatures over every proper prefix (and one-byte extension) of the signed bytes and every prefix presented with the full signature, through RunPrograms; " +
 			"C: 1<=m<=n<=4 x every assignment of keys to script slots (incl. one key in several slots) x signer sequences of length 0..n+1 over {each script key (j-th use = j-th distinct signature), foreign key, garbage} (quick: n=4 as multisets in both orders) through VerifyMultisigSignatures and RunPrograms; " +
+			"E: every transaction type of GetTransaction x payload version 0..3, spending a foreign standard address with {no program, foreign program, tampered signature, correct program} through checkTransactionSignature; the observed set of (type, version) classes that verify no program must equal the pinned table; " +
 			"D: 7 prefixes x 15 code classes x 5 unsigned/foreign parameters x hash match/mismatch; all address constructors for n<=4. non-trivial = accepted spends, each judged by the independent verifier",
 		"exhaustive":                 true,
 		"address_set_skeletons":      sets,
@@ -828,6 +971,9 @@ func main() {
 		"mutations":                  muts,
 		"mofn_signer_sequences":      mofn,
 		"constructors_in_layout":     ctorsOK,
+		"transaction_types":          nTypes,
+		"type_version_cases":         typeCases,
+		"signature_exempt_classes_observed": exempt,
 		"accepted":                   c.ct.accepted,
 		"rejected":                   c.ct.rejected,
 		"panicked_not_accepted":      c.ct.panicked,
